@@ -6,5 +6,11 @@ CLAIMED = {
         design_ref="§4 C24, §3.1",
         note="bounded model (3 keys, 2 values, capacity <= 4, 2 threads x 2 ops); real-thread schedules are sampled, not enumerated; wrappers on the base-class methods are trusted to log at the linearization point",
     ),
+    "C06": dict(
+        technique="TLA+ spec LoopNest.tla (ghost nest vs context mechanism) model-checked with TLC; every enumerated nest x boundary limit replayed into real sync and async renders",
+        text="TLC checks MechanismTracksNest/LoopLimit/OverLimitRaises/RaisesOnlyOverLimit on every chain of depth<=3 (thorough 4) over 7 construct kinds with lengths 0..3 and every limit adjacent to a prefix product; each terminal state is concretised (partials in a DictLoader) and rendered sync+async; status and number of innermost block executions must equal the specification's",
+        design_ref="§4 C06, §3.6",
+        note="bounds: depth<=4, lengths 0..3 exhaustive (sampled to 12 / limits to 200 in thorough); linear nests only (one construct per level)",
+    ),
 }
 NOT_APPLICABLE = {}
